@@ -214,6 +214,9 @@ class Randomizer(RandIF):
                     active_randsets.append(rs)
                     for f in rs.all_fields():
                         f.dispose()
+                    # Also release solver nodes held by the constraints (eg 
+                    # array size/sum expressions), as on the success path
+                    RandSetDisposeVisitor().dispose(rs)
                         
                 if self.solve_fail_debug > 0:
                     raise SolveFailure(
